@@ -63,7 +63,7 @@ func dot() string { return "." }
 func (g *gen) mutate(s string) string {
 	b := []byte(s)
 	special := []string{".", "-", "+", "_", "~", "^", ":", "!", " ", "\t", "\n", "v", "V", "0", "00", "9", "a", "A", "z", "rc", "RC", "dev",
-		"#", "p", "/", "*", "@", "\x00", "\x80", "\xff", "\xc3\xa9", "\xc3\x89", "\xe2\x80\x80", "\xc2\x85", "\xc2\xa0", "\xe2", "\xf0\x9f\x98\x80", "\xed\xa0\x80",
+		"#", "p", "/", "*", "@", "\x00", "\x80", "\xff", "\xc3\xa9", "\xc3\x89", "\u0531", "\u212a", "\u1e9e", "\u0130", "\u03a3", "\u0416", "\xe2\x80\x80", "\xc2\x85", "\xc2\xa0", "\xe2", "\xf0\x9f\x98\x80", "\xed\xa0\x80",
 		"1", "..", "--", "-r", "_p", "_alpha", "~abc", "sp", "ga", "final", ".post", "post1", "!", "1!", "+local", "99999999999999999999"}
 	for k := 1 + g.r.Intn(3); k > 0; k-- {
 		switch g.r.Intn(6) {
